@@ -223,6 +223,12 @@ type flow struct {
 	Dport int    `json:"dport"`
 	Mark  uint32 `json:"mark"`
 	Ct    string `json:"ct"`
+
+	srcA, dstA addrPair // the addresses of the two roles (filled by flows / resolve)
+}
+
+func (f *flow) resolve(c capCfg) {
+	f.srcA, f.dstA = fixedRoles[f.Src], dstRoles(c)[f.Dst]
 }
 
 func (f flow) String() string {
@@ -331,6 +337,11 @@ func flows(c capCfg, thorough bool, emit func(f flow)) {
 		a := roles[role]
 		return (a[0].IsValid() && a[0].IsLoopback()) || (a[1].IsValid() && a[1].IsLoopback())
 	}
+	emit0 := emit
+	emit = func(f flow) {
+		f.srcA, f.dstA = fixedRoles[f.Src], roles[f.Dst]
+		emit0(f)
+	}
 	for _, o := range owners(c) {
 		for _, proto := range []string{"tcp", "udp"} {
 			for _, d := range dsts {
@@ -374,6 +385,7 @@ type dimension struct {
 	name   string
 	values []string
 	set    func(c *capCfg, v string)
+	quickN int // number of leading values used by the quick tier's full product (0 = all); pairwise always uses all
 }
 
 func withTwins(list string) string {
@@ -399,34 +411,36 @@ func pair(v string) (string, string) {
 func dims(thorough bool) []dimension {
 	d := []dimension{
 		{"include", []string{"*", "", "10.1.0.0/16", "10.1.0.0/16,10.2.0.0/24", "127.1.2.3/32,10.1.0.0/16"},
-			func(c *capCfg, v string) { c.Include = v }},
-		{"exclude", []string{"", "10.1.5.0/24", "10.0.0.0/8", "192.168.0.0/16", "10.1.5.0/24,10.2.0.64/26", "10.1.7.7/32"},
-			func(c *capCfg, v string) { c.Exclude = v }},
-		{"outports", []string{"|", "|5001", "|80,5000", "5000|", "5000|5001", "5000,6000|80,5000"},
-			func(c *capCfg, v string) { c.OutInc, c.OutExc = pair(v) }},
-		{"uidgid", []string{"1337|1337", "1337|2000", "3,4|1,2", "0|1337"},
-			func(c *capCfg, v string) { c.UID, c.GID = pair(v) }},
+			func(c *capCfg, v string) { c.Include = v }, 0},
+		{"exclude", []string{"", "10.1.5.0/24", "10.0.0.0/8", "10.1.5.0/24,10.2.0.64/26", "192.168.0.0/16", "10.1.7.7/32"},
+			func(c *capCfg, v string) { c.Exclude = v }, 5},
+		{"outports", []string{"|", "|80,5000", "5000|", "5000,6000|80,5000", "|5001", "5000|5001"},
+			func(c *capCfg, v string) { c.OutInc, c.OutExc = pair(v) }, 4},
+		// the last two leave one list empty: possible for a caller of the library (the CLI and the CNI
+		// plugin always fill both); without them the uid and gid rule blocks mask each other
+		{"uidgid", []string{"1337|1337", "1337|2000", "3,4|1,2", "0|1337", "1337|", "|1337"},
+			func(c *capCfg, v string) { c.UID, c.GID = pair(v) }, 4},
 		{"dns", []string{"off", "servers", "v4only", "all", "noservers"},
-			func(c *capCfg, v string) { c.DNS = v }},
-		{"ownergroups", []string{"*|", "*|888", "*|888,889", "202,203|", "|"},
-			func(c *capCfg, v string) { c.OGInc, c.OGExc = pair(v) }},
+			func(c *capCfg, v string) { c.DNS = v }, 0},
+		{"ownergroups", []string{"*|", "*|888,889", "202,203|", "*|888", "|"},
+			func(c *capCfg, v string) { c.OGInc, c.OGExc = pair(v) }, 3},
 		{"mode", []string{"REDIRECT", "TPROXY"},
-			func(c *capCfg, v string) { c.Mode = v }},
+			func(c *capCfg, v string) { c.Mode = v }, 0},
 		{"inports", []string{"*|", "*|80", "*|9000,15020,", "|", "|80", "80,8080|", "80,8080|80", "80,15008|9000"},
-			func(c *capCfg, v string) { c.InInc, c.InExc = pair(v) }},
+			func(c *capCfg, v string) { c.InInc, c.InExc = pair(v) }, 0},
 		{"ifaces", []string{"", "nic1", "nic1,nic2"},
-			func(c *capCfg, v string) { c.ExclIf = v }},
+			func(c *capCfg, v string) { c.ExclIf = v }, 0},
 		{"dropinvalid", []string{"false", "true"},
-			func(c *capCfg, v string) { c.DropInvalid = v == "true" }},
+			func(c *capCfg, v string) { c.DropInvalid = v == "true" }, 0},
 		{"loopcidr", []string{"127.0.0.1/32", "127.0.0.0/8"},
-			func(c *capCfg, v string) { c.LoopCidr = v }},
+			func(c *capCfg, v string) { c.LoopCidr = v }, 0},
 		{"v6", []string{"twins", "off", "v4lists"},
 			func(c *capCfg, v string) {
 				c.IPv6 = v != "off"
 				if v == "twins" {
 					c.Include, c.Exclude = withTwins(c.Include), withTwins(c.Exclude)
 				}
-			}},
+			}, 0},
 	}
 	if thorough {
 		d[0].values = append(d[0].values, "0.0.0.0/0", "127.0.0.0/8,10.2.0.0/24")
@@ -473,6 +487,9 @@ func configurations(thorough bool) []capCfg {
 		sizes := make([]int, len(free))
 		for i, f := range free {
 			sizes[i] = len(d[f].values)
+			if !thorough && d[f].quickN > 0 {
+				sizes[i] = d[f].quickN
+			}
 		}
 		idx := make([]int, len(d))
 		var ord int64
